@@ -181,7 +181,11 @@ def r2_canonical_keys(ctx):
         # NewCustom's byte form is the smallest, so the left side decides.
         ncs = [(a, cn) for a, cn, abi in _pick_atoms(b, lambda cn: "Denom::NewCustom{}" in cn and "PoolKey::left(%s)" % sig(K) in cn and cn.startswith(("Eq(", "Ne(")))
                if "Denom::NewCustom{}" in cn and "PoolKey::left(%s)" % sig(K) in cn and cn.startswith(("Eq(", "Ne("))]
-        if not ncs:
+        other_eq = [cn for a, cn, abi in _pick_atoms(b, lambda cn: "PoolKey::left(%s)" % sig(K) in cn and cn.startswith(("Eq(", "Ne(")) and "PoolKey::right(" not in cn)
+                    if "PoolKey::left(%s)" % sig(K) in cn and cn.startswith(("Eq(", "Ne(")) and "PoolKey::right(" not in cn]
+        if not ncs and other_eq:
+            r.undecided("newcustom-side@" + key, "the left side is compared with %s: whether that is NewCustom is not read" % other_eq[0][:100], where)
+        elif not ncs:
             r.violation("newcustom-side@" + key, "%s returns a pool key without testing its sides against NewCustom: the empty string names the pool NewCustom/MEL, whose left side is credited with any "
                         "freshly created token (free to mint) and pays out real coins" % b.nname, where)
         else:
